@@ -42,3 +42,5 @@ ls mutants/*/hand-* | wc -l
 mk C06 no-depth-guard   "R-TERM/T-depth"  internal/codec/decoder.go '/^func (dec \*decoder) jsonObjectBody/,/^}/{/if dec.depth >= maxDecodeDepth {/,/}/d}'
 mk C07 no-block-depth   "R-TERM/T-nest"   internal/bcl/internal/parser/parser.go '/^\t\t\tif depth > maxBlockDepth {/,/^\t\t\t}/d'
 mk C03 any-any-key      "R-ERR/E4"        internal/codec/decoder.go '/^\t\tif keyTokenStr != "value" {/,/^\t\t}/d'
+mk C03 query-map-order  "R-DET/N1"        internal/codec/query.go 's/^\tfor _, key := range keys {$/\tfor key := range queryString {/'
+mk C09 desc-no-lines    "R-COVER/nonempty" internal/bcl/internal/parser/fmt.go '/^\tif len(linesOut) == 0 {$/,/^\t}$/d'
